@@ -16,6 +16,7 @@ import (
 	"github.com/PowerDNS/lightningstream/snapshot"
 
 	"verif/bucket"
+	"verif/hdr"
 	"verif/inst"
 	"verif/lmdbx"
 	"verif/rng"
@@ -211,10 +212,16 @@ func (f *fleet) merge(i int, blob string) error {
 	}
 	incoming := inst.StateOfSnap(ws)
 	before, _ := x.Logical()
+	rawBefore, _, _ := lmdbx.DumpEnv(x.Env)
+	lastBefore := lmdbx.LastTxnID(x.Env)
 	if _, _, err := x.LoadBlob(f.ctx, blob, 0); err != nil {
 		return err
 	}
 	after, _ := x.Logical()
+	if f.which == "C14" {
+		rawAfter, _, _ := lmdbx.DumpEnv(x.Env)
+		f.checkWrittenValues(i, rawBefore, rawAfter, lastBefore, lmdbx.LastTxnID(x.Env), "merge of "+blob)
+	}
 	f.trace = append(f.trace, fmt.Sprintf("merge i%d <- %s", i, blob))
 	f.res.Count("merges", 1)
 	changed := false
@@ -573,4 +580,42 @@ func RunHist(h Hist, env *runner.Env, res *runner.Result, which string) {
 		res.More = nil
 	}
 	res.Sample = map[string]any{"history": h, "application_ops": res.Obs["application_ops"], "merges": res.Obs["merges"], "uploads": res.Obs["uploads"], "conflict_keys": res.Obs["keys_with_conflicting_versions"]}
+}
+
+// checkWrittenValues (C14 write monitor): every value of a timestamped DBI that a Lightning Stream transaction
+// changed must carry a well-formed version-0 header with the id of that transaction.
+func (f *fleet) checkWrittenValues(i int, before, after lmdbx.Dump, lastBefore, lastAfter int64, what string) {
+	for name, dd := range after {
+		timestamped := (f.h.Native && !strings.HasPrefix(name, "_sync")) || (!f.h.Native && strings.HasPrefix(name, inst.ShadowPrefix))
+		if !timestamped {
+			continue
+		}
+		old := map[string][]byte{}
+		if od := before[name]; od != nil {
+			for _, kv := range od.KVs {
+				old[string(kv.K)] = kv.V
+			}
+		}
+		for _, kv := range dd.KVs {
+			if string(old[string(kv.K)]) == string(kv.V) {
+				continue
+			}
+			f.res.Count("written_values_checked", 1)
+			h, _, err := hdr.WellFormedLS(kv.V, 0)
+			if err != nil {
+				f.res.Violate("written-header-malformed", fmt.Sprintf("i%d %s: %s[%q] written value is not well-formed: %v", i, what, name, kv.K, err), f.wit(what))
+				continue
+			}
+			if int64(h.TxnID) <= lastBefore || int64(h.TxnID) > lastAfter {
+				f.res.Violate("written-txnid-field", fmt.Sprintf("i%d %s: %s[%q] carries transaction id %d, LastTxnID before %d after %d", i, what, name, kv.K, h.TxnID, lastBefore, lastAfter), f.wit(what))
+			}
+			wantExtra := 0
+			if f.h.Padding && f.h.Native {
+				wantExtra = 1
+			}
+			if h.NumExtra != wantExtra {
+				f.res.Violate("written-header-extension-count", fmt.Sprintf("i%d %s: %s[%q] has %d extension blocks, expected %d", i, what, name, kv.K, h.NumExtra, wantExtra), f.wit(what))
+			}
+		}
+	}
 }
